@@ -28,7 +28,7 @@ def requirements(tier):
     return {"jseen_checked": 200, "shared_slice_bitwise_checked": 200, "task_param_checked": 300, "raw_end_to_end_checked": 40,
             "w_heads_share_param": 20, "w_head_ignores_feature": 20, "w_two_features": 50, "w_generator_params": 30,
             "w_three_tasks": 50, "w_param_listed_but_unused": 10, "w_default_lists": 50, "w_explicit_lists": 50,
-            "w_pre_existing_grad": 50, "w_task_without_params": 10, "w_aggregator_with_user_hooks": 15}
+            "w_pre_existing_grad": 50, "w_task_without_params": 10, "w_aggregator_with_user_hooks": 15, "w_two_losses_with_equal_values": 10}
 
 
 def gen_agg(rng, t, proxy):
@@ -101,8 +101,7 @@ def gen_case(rng, i):
 
 def _slim(case):
     c = dict(case)
-    p = {k: v for k, v in c["program"].items() if k not in ("feature_deps",)}
-    p["heads"] = [{k: v for k, v in h.items() if k != "deps"} for h in p["heads"]]
+    p = dict(c["program"])  # (the generator's symbolic deps stay in the recorded case: replays need them)
     c["program"] = p
     return c
 
@@ -302,6 +301,8 @@ def check_case(case, ctx):
             listed_count[tuple(r)] = listed_count.get(tuple(r), 0) + 1
     if any(v >= 2 for v in listed_count.values()):
         ctx.count("w_heads_share_param")
+    if any("twin_of_head" in h for h in desc["heads"]):
+        ctx.count("w_two_losses_with_equal_values")
     if any(len(h["features"]) < len(desc["features"]) for h in desc["heads"]):
         ctx.count("w_head_ignores_feature")
     if len(desc["features"]) >= 2:
